@@ -123,6 +123,7 @@ def load_registry():
                         "desc": ann.get("desc", ""),
                         "finding": ann.get("finding", ""),
                         "env": dict(x.split("=", 1) for x in ann.get("env", "").split()),
+                        "twin_replay": ann.get("twin_replay", "no") == "yes",
                     }
                     if name in reg:
                         raise SystemExit(f"duplicate harness name {name}")
@@ -576,8 +577,10 @@ def main():
     for r in results:
         if r.get("outcome") != "twin-failed-as-required" or os.environ.get("VERIF_NO_REPLAY"):
             continue
-        if args.tier == "quick" and (r.get("wall_s") or 1e9) > float(os.environ.get("VERIF_TWIN_REPLAY_MAX_S", "60")):
-            twin_replays.append({"harness": r["name"], "replayed": False, "why": "twin too expensive for the quick tier"})
+        # which twins are replayed is fixed by annotation (`//@ twin_replay: yes`), not by timing, so that
+        # every run of a tier validates the same traces
+        if not byname[r["name"]].get("twin_replay") or os.environ.get("VERIF_TWIN_REPLAY_MAX_S") == "0":
+            twin_replays.append({"harness": r["name"], "replayed": False, "why": "not annotated for replay (cost)"})
             continue
         h = byname[r["name"]]
         pr = run_harness(h, args.tier, playback=True)
